@@ -19,8 +19,18 @@
 //! random byte strings.  Point/signature validity is decided by the model as well (Codec.validPoint /
 //! validSig), so mutations that hit keys and signatures are compared exactly like any other.
 //!
-//! Implementation-side oracle (independent of the model): no panic; decode(encode(m)) == m for every
-//! built message; for every byte string that decodes, decode(encode(decoded)) == decoded.
+//! Custom codecs (Model/MsgCustom.lean): `dec UnsignedNodeAnnouncement|NodeAnnouncement <hex>` answers
+//! `ok <re-encoding> a=<descriptor type bytes> x=<len excess_address_data> e=<len excess_data>`, `dec QueryShortChannelIds|
+//! ReplyChannelRange` answers `ok <re-encoding> n=<ids>`, `dec OnionMessage` answers `ok <re-encoding> h=<len hop_data>`, so the
+//! parsed STRUCTURE is compared with the model, not only the bytes.  Their valid stream is a structured generator over the real
+//! Rust types (`G::sock_addr`, `G::node_ann`, `G::scids`), their malformed stream is `custom_mutations` (every length field ±1, ±2,
+//! …).  `oracle <Name> <hex>` lines (TxAddInput, TxSignatures, RevokeAndACK) are directives: real decoder + oracles only.
+//!
+//! Implementation-side oracles (independent of the model): no panic; decode(encode(m)) == m for every
+//! built message; for every byte string that decodes, decode(encode(decoded)) == decoded; for node_announcement / scid lists /
+//! onion_message / tx_add_input: the declared length field equals the size of what was parsed (sizes from
+//! `Writeable::serialized_length`, not from the reader's bookkeeping), nothing of the input is dropped or read twice, and the
+//! re-encoding is the canonical form (`node_ann_structure`, `scid_structure`).
 use bitcoin::hashes::Hash;
 use bitcoin::secp256k1::ecdsa::Signature;
 use bitcoin::secp256k1::{PublicKey, Secp256k1, SecretKey};
@@ -763,6 +773,7 @@ fn main() {
 			// the long messages (1.4 kB onion, 920-byte attribution data, kB blobs) dominate the size of the
 			// op files: in the thorough tier they take part in every 8th round only
 			if args.thorough && rep % 8 != 0 && matches!(*name, "UpdateAddHTLC" | "PeerStorage" | "PeerStorageRetrieval" | "UpdateFailHTLC" | "UpdateFulfillHTLC") { continue; }
+			if args.thorough && rep % 4 != 0 && ORACLE_ONLY_NAMES.contains(name) { continue; }
 			let nt = n_tlvs(name);
 			// (a) valid stream: every presence mask (up to 16), fresh values
 			let masks: Vec<u32> = (0..(1u32 << nt)).collect();
@@ -855,6 +866,8 @@ fn main() {
 		}
 		// custom codecs: valid stream + structure-aware malformed stream (exhaustive for the first message of each round)
 		for name in CUSTOM_NAMES {
+			// thorough tier: every 8th round (the structure-aware stream is ~5000 cases per round)
+			if args.thorough && rep % 8 != 0 { continue; }
 			let n_valid = if name.ends_with("NodeAnnouncement") { 6 } else { 3 };
 			for k in 0..n_valid {
 				let st = rng.next();
